@@ -142,6 +142,17 @@ def chain_start(toks: List[Tok], k: int) -> int:
 def mechanical_rewrites(text: str, toks: List[Tok], r12: Optional[str] = None):
     edits = []
     n = len(toks)
+    # R19: RECV.splitn(N, 'c') with a char literal separator (str::splitn; the slice form takes a closure)
+    #      ->  vx_str_splitn(RECV, N, 'c'), the trusted wrapper of contracts/15_stdspecs.rs (str::splitn is generic over the
+    #      unstable Pattern trait, whose generic associated type Verus cannot declare).  First, so that its opening text precedes
+    #      R12's at the same offset.
+    for i, t in enumerate(toks):
+        if t.kind == "ident" and t.text == "splitn" and i >= 2 and toks[i - 1].text == "." and i + 1 < n and toks[i + 1].text == "(":
+            close = match_close(toks, i + 1)
+            if toks[close - 1].kind == "char" and not toks[close - 1].text.startswith("b"):
+                k = chain_start(toks, i - 2)
+                edits.append((toks[k].start, toks[k].start, "vx_str_splitn(", "R19a"))
+                edits.append((toks[i - 1].start, toks[i + 1].end, ", ", "R19b"))
     for i, t in enumerate(toks):
         if t.kind == "str" and t.text.startswith('b"'):
             edits.append((t.start, t.end, bytestr_to_array(t.text), "R9"))
@@ -190,6 +201,41 @@ def mechanical_rewrites(text: str, toks: List[Tok], r12: Optional[str] = None):
             edits.append((toks[close].start, toks[close].end,
                           "; let mut vx_r%d = true; loop\n/*@ALL%d@*/\n{\n/*@ALLPRE@*/\nmatch vx_it%d.next() { Some(vx_x) => {\n/*@ALLBODY@*/\nif !vx_f%d(vx_x) { vx_r%d = false; break; } } None => { break; } } } vx_r%d }"
                           % (idx, idx, idx, idx, idx, idx), "R11c"))
+        # R18: `if let PAT(&LIT) = E { A } else { B }`  ->  `match E { PAT(vx_l) if *vx_l == LIT => { A } _ => { B } }`
+        #      (a reference-to-literal pattern matches a reference whose target equals the literal; Verus rejects such patterns)
+        if t.kind == "ident" and t.text == "if" and i + 1 < n and toks[i + 1].text == "let":
+            d, eq = 0, None
+            for j in range(i + 2, n):
+                if toks[j].text in ("(", "["):
+                    d += 1
+                elif toks[j].text in (")", "]"):
+                    d -= 1
+                elif toks[j].text == "=" and d == 0:
+                    eq = j
+                    break
+                elif toks[j].text == "{":
+                    break
+            lits = [j for j in range(i + 2, eq or i + 2) if toks[j].text == "&" and toks[j + 1].kind in ("char", "num")] if eq else []
+            if len(lits) == 1:
+                d, b1 = 0, None
+                for j in range(eq + 1, n):
+                    if toks[j].text in ("(", "["):
+                        d += 1
+                    elif toks[j].text in (")", "]"):
+                        d -= 1
+                    elif toks[j].text == "{" and d == 0:
+                        b1 = j
+                        break
+                c1 = match_close(toks, b1)
+                if c1 + 1 < n and toks[c1 + 1].text == "else" and toks[c1 + 2].text == "{":
+                    c2 = match_close(toks, c1 + 2)
+                    lj = lits[0]
+                    lit = toks[lj + 1].text
+                    pat = text[toks[i + 2].start:toks[lj].start] + "vx_l" + text[toks[lj + 1].end:toks[eq - 1].end]
+                    expr = text[toks[eq + 1].start:toks[b1 - 1].end]
+                    edits.append((t.start, toks[b1].start, "match %s { %s if *vx_l == %s => " % (expr, pat, lit), "R18a"))
+                    edits.append((toks[c1].end, toks[c1 + 2].start, " _ => ", "R18b"))
+                    edits.append((toks[c2].end, toks[c2].end, " }", "R18c"))
         # R16: RECV.nth(K), K an integer literal  ->  Iterator::nth's definition (advance K times, stop at the first None, then next())
         #      unrolled for the literal K
         if t.kind == "ident" and t.text == "nth" and i >= 1 and toks[i - 1].text == "." and i + 3 < n and toks[i + 1].text == "(" \
